@@ -200,9 +200,13 @@ def run(ctx):
                         n_sys += 1
         ctx.count("systematic_delay_runs", n_sys)
         ctx.extra["single_delay_placements_complete"] = True
-    n = ctx.budget(2500, 2000000)
+    n = ctx.budget(6000, 2000000)
+    plain = [c for c in cfgs if len(c) == 4 and c[3] in (False, True)]
+    extra = [c for c in cfgs if c not in plain]
     for i in range(n):
-        cfg = rng.choice(cfgs)
+        # the ordinary configurations get most of the random schedules: their defects need a particular interleaving of a few
+        # steps; the bursts and the unencodable message fail under almost any schedule
+        cfg = rng.choice(plain) if (rng.random() < .8 or not extra) else rng.choice(extra)
         policy = "random" if i % 4 else "pct"
         res = one_run(cfg, (ctx.seed, ctx.shard[0], i), policy, p_switch=rng.choice([0.1, 0.3, 0.6]))
         record(ctx, res)
